@@ -32,6 +32,8 @@ def fold_case(case):
         for r in con["rels"]:
             r["lhs"] = fold_expr(r["lhs"], pv)
             r["rhs"] = fold_expr(r["rhs"], pv)
+        if "vb" in con:
+            con["vb"]["exprs"] = [fold_expr(e, pv) for e in con["vb"]["exprs"]]
     if "param" in c.get("T", {}):
         c["T"] = {"fixed": pv[c["T"]["param"]]}
     if "param" in c.get("t0", {}):
